@@ -118,6 +118,9 @@ ImplMappingBijectionP == IF First THEN TRUE ELSE
                                                  /\ St.slots[s].nvars = Cardinality(o[s].vars)
     \* after set_mapping(m) the object's mapping IS m
     /\ (St.op[1] = "setmap" => o[St.op[2]].map = pred[St.op[2]].map)
+\* weaker than the bijection (which create_from_info of a STALE model does not restore): two labels never share an integer
+ImplMappingInjectiveP == IF First THEN TRUE ELSE
+    \A s \in Slots : IsLabelled(o[s].kind) => Cardinality({o[s].map[x] : x \in DOMAIN o[s].map}) = Cardinality(DOMAIN o[s].map)
 RawCanon(sl) == /\ \A i \in 1..Len(sl.ts) : sl.ts[i][2] # 0 /\ Cardinality(ToSet(sl.ts[i][1])) = Len(sl.ts[i][1])
                 /\ \A i, j \in 1..Len(sl.ts) : i # j => ToSet(sl.ts[i][1]) # ToSet(sl.ts[j][1])
 ImplStoredCanonicalP == IF First THEN TRUE ELSE \A s \in Slots : RawCanon(St.slots[s])
@@ -153,9 +156,10 @@ ImplEnumLabelsP == IF First THEN TRUE ELSE
 \* label the harness writes into the ARGUMENT after the call / into getter results / into info dictionaries never shows
 \* up in a model's terms, mapping or recorded constraints (`poked` is that observation, made on the projection)
 ImplNoAliasP == IF First THEN TRUE ELSE \A ss \in Slots : ~St.slots[ss].poked
-AllOK == ImplNoAliasP /\ ImplValueP /\ ImplInfoSameP /\ ImplCopySameP /\ TermsMatchP /\ KindMatchP /\ ImplNoRaiseP /\ ImplUpperBoundsP /\ ImplMappingBijectionP /\ ImplStoredCanonicalP
+AllOK == ImplMappingInjectiveP /\ ImplNoAliasP /\ ImplValueP /\ ImplInfoSameP /\ ImplCopySameP /\ TermsMatchP /\ KindMatchP /\ ImplNoRaiseP /\ ImplUpperBoundsP /\ ImplMappingBijectionP /\ ImplStoredCanonicalP
          /\ ImplRefreshExactP /\ ImplAncCoversP /\ ImplAncFreshP /\ ImplUnchangedOthersP /\ ImplEnumLabelsP
 ImplNoAlias == Clause("ImplNoAlias", ImplNoAliasP)
+ImplMappingInjective == Clause("ImplMappingInjective", ImplMappingInjectiveP)
 ImplValue == Clause("ImplValue", ImplValueP)
 ImplInfoSame == Clause("ImplInfoSame", ImplInfoSameP)
 ImplCopySame == Clause("ImplCopySame", ImplCopySameP)
